@@ -307,7 +307,7 @@ def brief(case, out=None):
 def sizes(tier):
     if tier == "quick":
         return {1: 12, 2: 24, 3: 40, 4: 48, 5: 48, 6: 32, 7: 16, 8: 8, 9: 8, 10: 8, 12: 8, 14: 8}
-    return {1: 16, 2: 80, 3: 200, 4: 300, 5: 300, 6: 200, 7: 96, 8: 40, 9: 40, 10: 40, 11: 40, 12: 40, 13: 40, 14: 40}
+    return {1: 16, 2: 160, 3: 500, 4: 800, 5: 800, 6: 500, 7: 250, 8: 100, 9: 100, 10: 100, 11: 80, 12: 80, 13: 80, 14: 80}
 
 
 def main(tier, seed, replay=None):
